@@ -3,8 +3,8 @@ package main
 // `regs` operations: sequences of typed accessor calls on packet.Registers.
 
 import (
-	modbus "github.com/aldas/go-modbus-client"
 	"fmt"
+	modbus "github.com/aldas/go-modbus-client"
 	"math"
 	"strings"
 
@@ -28,7 +28,26 @@ func f64Str(v float64) string {
 }
 
 // accessOne performs one accessor call; op = name@addr[/x[/y]]
+// values handed out earlier stay what they were: retained collects, for results that refer to memory (byte slices,
+// strings), a function that renders the retained value again
+type retainer struct {
+	again []func() string
+	first []string
+	index []int
+}
+
+func (t *retainer) keep(i int, first string, again func() string) {
+	if t == nil {
+		return
+	}
+	t.again, t.first, t.index = append(t.again, again), append(t.first, first), append(t.index, i)
+}
+
 func accessOne(r *packet.Registers, op string) (out string) {
+	return accessOneR(r, op, nil, 0)
+}
+
+func accessOneR(r *packet.Registers, op string, keep *retainer, idx int) (out string) {
 	defer func() {
 		if rec := recover(); rec != nil {
 			out = "PANIC"
@@ -78,6 +97,9 @@ func accessOne(r *packet.Registers, op string) (out string) {
 		v, err := f.ExtractFrom(r)
 		if err != nil {
 			return errStr(err)
+		}
+		if sv, ok := v.(string); ok {
+			keep.keep(idx, valueStr(sv), func() string { return valueStr(sv) })
 		}
 		return "ok " + valueStr(v)
 	}
@@ -138,18 +160,33 @@ func accessOne(r *packet.Registers, op string) (out string) {
 		return res(f64Str(v), err)
 	case "str":
 		v, err := r.String(addr, uint8(x0))
+		if err == nil {
+			keep.keep(idx, "str:"+hx([]byte(v)), func() string { return "str:" + hx([]byte(v)) })
+		}
 		return res("str:"+hx([]byte(v)), err)
 	case "stro":
 		v, err := r.StringWithByteOrder(addr, uint8(x0), packet.ByteOrder(x1))
+		if err == nil {
+			keep.keep(idx, "str:"+hx([]byte(v)), func() string { return "str:" + hx([]byte(v)) })
+		}
 		return res("str:"+hx([]byte(v)), err)
 	case "reg":
 		v, err := r.Register(addr)
+		if err == nil {
+			keep.keep(idx, "raw:"+hx(v), func() string { return "raw:" + hx(v) })
+		}
 		return res("raw:"+hx(v), err)
 	case "dreg":
 		v, err := r.DoubleRegister(addr, packet.ByteOrder(x0))
+		if err == nil {
+			keep.keep(idx, "raw:"+hx(v), func() string { return "raw:" + hx(v) })
+		}
 		return res("raw:"+hx(v), err)
 	case "qreg":
 		v, err := r.QuadRegister(addr, packet.ByteOrder(x0))
+		if err == nil {
+			keep.keep(idx, "raw:"+hx(v), func() string { return "raw:" + hx(v) })
+		}
 		return res("raw:"+hx(v), err)
 	}
 	return "NOACC"
@@ -179,8 +216,14 @@ func execRegs(ts []string) string {
 		return s
 	}
 	seq := make([]string, len(ops))
+	kept := &retainer{}
 	for i, op := range ops {
-		seq[i] = accessOne(r, op)
+		seq[i] = accessOneR(r, op, kept, i)
+	}
+	for k, again := range kept.again {
+		if again() != kept.first[k] {
+			seq[kept.index[k]] += " CHANGED-BY-A-LATER-READ"
+		}
 	}
 	after := hx(d[:len(data)])
 	solo := make([]string, len(ops))
